@@ -44,6 +44,7 @@ impl Method for SMA {
 	}
 
 //@extract src/methods/sma.rs impl[Method for SMA]::new
+	ensures (r is Ok) == (length != 0 && length != PeriodType::MAX),
 //@hint before match length
 	proof {
 		if length > 0 {
